@@ -4,50 +4,42 @@ import Model.FixedTextFloat
     `formatFloatGo`, `quoGo`). -/
 namespace FixedText
 
-/-- the reader recovers sign, digits and scale of every text that `Denotes` a decimal number -/
-theorem parseDec_of_denotes (t : Str) (neg : Bool) (N k : Nat) (h : Denotes t neg N k) :
-    parseDec? t = some (neg, N, k) := by
-  obtain ⟨ip, fp, rfl, hne, hip, hfp, rfl, rfl⟩ := h
-  obtain ⟨c, r, rfl⟩ := List.exists_cons_of_ne_nil hne
-  have hc := isDigit_bounds c (hip c (by simp))
-  have hnd : ∀ d ∈ c :: r, d ≠ 46 := fun d hd => by have := isDigit_bounds d (hip d hd); omega
-  have hfd : ∀ d ∈ fp, d ≠ 46 := fun d hd => by have := isDigit_bounds d (hfp d hd); omega
-  have hall : ((c :: r) ++ fp).all isDigit = true := by
+theorem parseDecBody_eval (neg : Bool) (ip fp : Str) (hne : ip ≠ []) (hip : ∀ c ∈ ip, isDigit c = true)
+    (hfp : ∀ c ∈ fp, isDigit c = true) :
+    parseDecBody neg (ip ++ (if fp = [] then [] else 46 :: fp)) = some (neg, parseDigits (ip ++ fp), fp.length) := by
+  have hnd : ∀ d ∈ ip, d ≠ 46 := fun d hd => by have := isDigit_bounds d (hip d hd); omega
+  have hall : (ip ++ fp).all isDigit = true := by
     rw [List.all_eq_true]
     intro d hd
     rcases List.mem_append.mp hd with h | h
     · exact hip d h
     · exact hfp d h
-  -- what the reader sees behind the sign
-  have key : ∀ body : Str, body = (c :: r) ++ (if fp = [] then [] else 46 :: fp) →
-      (splitDot body).1 = c :: r ∧ (match (splitDot body).2 with | some f => f | none => []) = fp := by
-    intro body hb
+  have key : (splitDot (ip ++ (if fp = [] then [] else 46 :: fp))).1 = ip ∧
+      ((splitDot (ip ++ (if fp = [] then [] else 46 :: fp))).2.getD []) = fp := by
     by_cases hf : fp = []
-    · rw [hb, if_pos hf, List.append_nil, splitDot_nodot _ hnd]; simp [hf]
-    · rw [hb, if_neg hf, splitDot_dot _ _ hnd]; simp
+    · rw [if_pos hf, List.append_nil, splitDot_nodot _ hnd]; simp [hf]
+    · rw [if_neg hf, splitDot_dot _ _ hnd]; simp
+  unfold parseDecBody
+  simp only [key.1, key.2]
+  rw [if_neg (by simp [hall, hne])]
+
+/-- the reader recovers sign, digits and scale of every text that `Denotes` a decimal number -/
+theorem parseDec_of_denotes (t : Str) (neg : Bool) (N k : Nat) (h : Denotes t neg N k) :
+    parseDec? t = some (neg, N, k) := by
+  obtain ⟨ip, fp, rfl, hne, hip, hfp, rfl, rfl⟩ := h
   cases neg
   · simp only [Bool.false_eq_true, if_false, List.nil_append]
-    obtain ⟨k1, k2⟩ := key _ rfl
+    rw [← parseDecBody_eval false ip fp hne hip hfp]
+    obtain ⟨c, r, rfl⟩ := List.exists_cons_of_ne_nil hne
+    have hc := isDigit_bounds c (hip c (by simp))
     unfold parseDec?
-    have h45 : c ≠ 45 := by omega
-    have h43 : c ≠ 43 := by omega
-    have hneg : (match (c :: r ++ if fp = [] then [] else 46 :: fp) with | 45 :: _ => true | _ => false) = false := by
-      simp only [List.cons_append]; split
-      · rename_i heq; simp at heq; exact absurd heq.1 h45
-      · rfl
-    have hbody : (match (c :: r ++ if fp = [] then [] else 46 :: fp) with | 45 :: r => r | 43 :: r => r | x => x) =
-        (c :: r ++ if fp = [] then [] else 46 :: fp) := by
-      simp only [List.cons_append]; split
-      · rename_i heq; simp at heq; exact absurd heq.1 h45
-      · rename_i heq; simp at heq; exact absurd heq.1 h43
-      · rfl
-    simp only [hneg, hbody, k1, k2]
-    rw [if_neg (by simp [hall])]
+    split
+    · rename_i heq; simp at heq; omega
+    · rename_i heq; simp at heq; omega
+    · rfl
   · simp only [if_true, List.append_assoc, List.singleton_append]
-    obtain ⟨k1, k2⟩ := key _ rfl
-    unfold parseDec?
-    simp only [k1, k2]
-    rw [if_neg (by simp [hall])]
+    show parseDecBody true (ip ++ (if fp = [] then [] else 46 :: fp)) = _
+    exact parseDecBody_eval true ip fp hne hip hfp
 
 /-- `N / 10^k` read off `String()`: the digits as one number and the count of fraction digits -/
 def decOf (p : Nat) (raw : Int) : Nat × Nat :=
@@ -83,20 +75,24 @@ theorem parseFloatGo_toStr (bits p : Nat) (raw : Int) :
   rw [parseDec_of_denotes _ _ _ _ (toStr_denotes_decOf p raw)]
 
 /-! ### the shortest text reads back as the float, by construction -/
-theorem shortestSearch_roundtrip (bits : Nat) (x : Flt) (neg : Bool) (A B : Nat) :
-    ∀ fuel nd t, shortestSearch bits x neg A B fuel nd = t → t ≠ [] → parseFloatGo bits t = x := by
+theorem firstAccepted_ok (cand : Nat → List Str) (ok : Str → Bool) :
+    ∀ fuel nd t, firstAccepted cand ok fuel nd = t → t ≠ [] → ok t = true := by
   intro fuel
   induction fuel with
-  | zero => intro nd t h hne; simp [shortestSearch] at h; exact absurd h.symm hne
+  | zero => intro nd t h hne; rw [firstAccepted] at h; exact absurd h.symm hne
   | succ f ih =>
     intro nd t h hne
-    unfold shortestSearch at h
+    rw [firstAccepted] at h
     split at h
     · rename_i t' hfind
       subst h
-      have := List.find?_some hfind
-      simpa using this
+      exact List.find?_some hfind
     · exact ih (nd + 1) t h hne
+
+theorem shortestSearch_roundtrip (bits : Nat) (x : Flt) (neg : Bool) (A B : Nat) (fuel nd : Nat) (t : Str)
+    (h : shortestSearch bits x neg A B fuel nd = t) (hne : t ≠ []) : parseFloatGo bits t = x := by
+  have := firstAccepted_ok _ _ fuel nd t h hne
+  simpa using this
 
 /-- bytes of a plain decimal text -/
 def DecBytes (t : Str) : Prop := ∀ c ∈ t, isDigit c = true ∨ c = 45 ∨ c = 46
@@ -122,7 +118,7 @@ theorem formatFloatGo_roundtrip (bits : Nat) (x : Flt) (t : Str) (h : formatFloa
       · rename_i he
         subst hm; subst he
         cases neg <;> simp only [Bool.false_eq_true, if_false, if_true] at h <;> subst h <;>
-          simp [parseFloatGo, parseDec?, splitDot, isDigit, parseDigits, nearestDec, Fixed.round32] <;>
+          simp [parseFloatGo, parseDec?, parseDecBody, splitDot, isDigit, parseDigits, nearestDec, Fixed.round32] <;>
           split <;> rfl
       · exact absurd h.symm hne
     · exact shortestSearch_roundtrip bits _ neg _ _ 17 1 t h hne
